@@ -54,6 +54,8 @@ def main():
         mod.run(run, tier, loader)
         import deps
         deps.apply(run, a.prop, tier, loader)
+        import equiv
+        equiv.second_chance(run, loader)
     except factsmod.ExtractionError as e:
         print('[%s] cannot analyse the tree: %s' % (a.prop, e), file=sys.stderr)
         sys.exit(2)
